@@ -19,7 +19,7 @@ EXPLANATION = (
 BOUNDS = {"quick": "dimension <=2, <=2 retries per coordinate, history of 2 stored points, 3 walkers", "thorough": "dimension 3 (Gibbs), 3 retries, 4 walkers"}
 ASSUMPTIONS = [
     "one inductive step from an arbitrary state satisfying I covers histories of any length",
-    "exchange / replacement by parallel tempering is covered by the C08 harness (worker update_position message)",
+    "exchange / replacement by parallel tempering: the C08 swap unit is run under C03 as well (N<=3 chains)",
 ]
 
 
@@ -217,3 +217,14 @@ def samplers_from_shared_inputs_are_independent(h, cls):
     h.eq("the other sampler's current point unchanged", np.array(b.get_last(), dtype=dt), b_last)
     h.eq("the other sampler's log-probability unchanged", b.probs[-1], b_prob)
     h.same("the other sampler's length unchanged", b.chain_length, 1)
+
+
+@unit("C03", quick=[dict(N=2, cp=4)], thorough=[dict(N=3, cp=2)], max_paths=20000, cost=5)
+def points_installed_by_a_tempering_exchange_carry_their_own_log_probability(h, N, cp):
+    """a parallel-tempering exchange installs the partner's point as the last recorded sample of a chain: afterwards the
+    chain's last recorded log-probability must be the log-density of *that* point divided by the receiving chain's
+    temperature, and chains that did not exchange are untouched.  Same execution of the real ParallelTempering.swap /
+    tempering_process / replace_last code (under the baton scheduler, forked interleavings) as C08's unit, asserted here
+    for C03's invariant"""
+    from harness import c08
+    c08.swap_is_metropolis_exchange(h, N, cp)
